@@ -644,6 +644,7 @@ htp_status_t htp_connp_REQ_HEADERS(htp_connp_t *connp) {
                     return HTP_ERROR;
                 bstr_free(connp->in_header);
                 connp->in_header = NULL;
+                connp->in_header_folded = 0;
             }
 
             htp_connp_req_clear_buffer(connp);
@@ -677,6 +678,8 @@ htp_status_t htp_connp_REQ_HEADERS(htp_connp_t *connp) {
 
                     bstr_free(connp->in_header);
                     connp->in_header = NULL;
+
+                    connp->in_header_folded = 0;
                 }
 
                 htp_connp_req_clear_buffer(connp);
@@ -698,6 +701,8 @@ htp_status_t htp_connp_REQ_HEADERS(htp_connp_t *connp) {
 
                     bstr_free(connp->in_header);
                     connp->in_header = NULL;
+
+                    connp->in_header_folded = 0;
                 }
 
                 IN_PEEK_NEXT(connp);
@@ -709,6 +714,7 @@ htp_status_t htp_connp_REQ_HEADERS(htp_connp_t *connp) {
                     // Keep the partial header data for parsing later.
                     connp->in_header = bstr_dup_mem(data, len);
                     if (connp->in_header == NULL) return HTP_ERROR;
+                    connp->in_header_folded = 0;
                 }
             } else {
                 // Folding; check that there's a previous header line to add to.
@@ -731,12 +737,14 @@ htp_status_t htp_connp_REQ_HEADERS(htp_connp_t *connp) {
                     }
                     connp->in_header = bstr_dup_mem(data + trim, len - trim);
                     if (connp->in_header == NULL) return HTP_ERROR;
+                    connp->in_header_folded = 0;
                 } else {
                     // Add to the existing header.
                     if (bstr_len(connp->in_header) < HTP_MAX_HEADER_FOLDED) {
                         bstr *new_in_header = bstr_add_mem(connp->in_header, data, len);
                         if (new_in_header == NULL) return HTP_ERROR;
                         connp->in_header = new_in_header;
+                        connp->in_header_folded = 1;
                     } else {
                         htp_log(connp, HTP_LOG_MARK, HTP_LOG_WARNING, 0, "Request field length exceeds folded maximum");
                     }
